@@ -47,6 +47,20 @@ impl MarkerEventContainer for LuaParser<'_> {
     }
 }
 
+/// Error recovery can report the same message at the same range more than once (several
+/// unfinished constructs stopping at the same unexpected token). Keep the first of each.
+fn dedup_errors(errors: &mut Vec<LuaParseError>) {
+    let keep: Vec<bool> = {
+        let mut seen = std::collections::HashSet::new();
+        errors
+            .iter()
+            .map(|e| seen.insert((&e.kind, e.range, e.message.as_str())))
+            .collect()
+    };
+    let mut keep = keep.into_iter();
+    errors.retain(|_| keep.next().unwrap_or(true));
+}
+
 impl<'a> LuaParser<'a> {
     pub fn parse(text: &'a str, config: ParserConfig) -> LuaSyntaxTree {
         let mut errors: Vec<LuaParseError> = Vec::new();
@@ -72,7 +86,8 @@ impl<'a> LuaParser<'a> {
         };
 
         parse_chunk(&mut parser);
-        let errors = parser.get_errors();
+        let mut errors = parser.get_errors();
+        dedup_errors(&mut errors);
         let root = {
             let mut builder = LuaTreeBuilder::new(
                 parser.origin_text(),
